@@ -468,10 +468,114 @@ class Super:
                 else:
                     newsucc.append((s, lab))
             n.succ = newsucc
+        self.entry = self.blocks_of[(root_ctx.id, 0)]
+        self._prune_drop_flags()
         for n in self.nodes:
             for (s, lab) in n.succ:
                 s.pred.append((n, lab))
-        self.entry = self.blocks_of[(root_ctx.id, 0)]
+
+    def _flag_locals(self, fn):
+        """bool locals whose every definition is a constant (drop flags)."""
+        fl = getattr(fn, "_flag_locals", None)
+        if fl is None:
+            fl = {}
+            defs = self._defs(fn)
+            for l, ds in defs.items():
+                if fn.locals[l]["ty"] != "bool" or len(ds) < 2 or l in fn._partial:
+                    continue
+                vals = []
+                for d in ds:
+                    if d[0] != "stmt":
+                        vals = None
+                        break
+                    rv = fn.blocks[d[1]]["stmts"][d[2]]["rv"]
+                    if rv["k"] == "use" and rv["op"]["k"] == "const" and "val" in rv["op"]:
+                        vals.append(rv["op"]["val"])
+                    else:
+                        vals = None
+                        break
+                if vals is not None:
+                    fl[l] = True
+            fn._flag_locals = fl
+        return fl
+
+    def _prune_drop_flags(self):
+        """Forward constant propagation of drop flags (internal-panic edges excluded) and removal of the
+        switch edges they make infeasible: a cleanup block reached from one unwind edge only sees the
+        flag values of that edge."""
+        sw = []
+        self.flag_in = {}
+        self.flag_keys = set()
+        for n in self.nodes:
+            if n.kind == "switch":
+                e = self.switch_expr(n)
+                if isinstance(e, tuple) and e and e[0] == "phi" and e[1] == n.ctx.id and e[2] in self._flag_locals(n.ctx.fn):
+                    sw.append((n, e[2]))
+        if not sw:
+            return
+        keys = {(n.ctx.id, l) for n, l in sw}
+        # state per node: dict key -> frozenset(values); absent = unassigned
+        IN = {self.entry.idx: {}}
+        dq = deque([self.entry])
+        while dq:
+            n = dq.popleft()
+            st = dict(IN.get(n.idx, {}))
+            fl = self._flag_locals(n.ctx.fn)
+            for s_ in n.stmts:
+                if s_["k"] == "assign" and not s_["place"]["p"] and s_["place"]["l"] in fl and (n.ctx.id, s_["place"]["l"]) in keys:
+                    st[(n.ctx.id, s_["place"]["l"])] = frozenset([s_["rv"]["op"]["val"]])
+            for (t, lab) in n.succ:
+                if t in (self.RET, self.RESUME) or not isinstance(t, Node):
+                    continue
+                l0 = lab[0] if isinstance(lab, tuple) else lab
+                if l0 == "ui":
+                    continue
+                st2 = st
+                if n.kind == "switch" and isinstance(lab, tuple):
+                    e = self.switch_expr(n)
+                    if isinstance(e, tuple) and e and e[0] == "phi" and (e[1], e[2]) in keys and (e[1], e[2]) in st:
+                        vals = st[(e[1], e[2])]
+                        if lab[1] == "otherwise":
+                            keep = frozenset(v for v in vals if v != 0)
+                        else:
+                            keep = frozenset(v for v in vals if v == lab[1])
+                        if not keep:
+                            continue
+                        st2 = dict(st)
+                        st2[(e[1], e[2])] = keep
+                cur = IN.get(t.idx)
+                if cur is None:
+                    IN[t.idx] = dict(st2)
+                    dq.append(t)
+                else:
+                    ch = False
+                    for k_, v in st2.items():
+                        if k_ not in cur:
+                            cur[k_] = v
+                            ch = True
+                        elif not v <= cur[k_]:
+                            cur[k_] = cur[k_] | v
+                            ch = True
+                    if ch:
+                        dq.append(t)
+        self.flag_in = IN
+        self.flag_keys = keys
+        for (n, l) in sw:
+            st = IN.get(n.idx)
+            if st is None or (n.ctx.id, l) not in st:
+                continue
+            vals = st[(n.ctx.id, l)]
+            new = []
+            for (t, lab) in n.succ:
+                if isinstance(lab, tuple):
+                    if lab[1] == "otherwise":
+                        feas = any(v != 0 for v in vals)
+                    else:
+                        feas = lab[1] in vals
+                    if not feas:
+                        continue
+                new.append((t, lab))
+            n.succ = new
 
     def _node(self, ctx, bb):
         key = (ctx.id, bb)
@@ -976,6 +1080,78 @@ class Super:
                     continue
                 dq.append(s)
         return True
+
+    def flag_state_after(self, n):
+        """Drop-flag constants known after executing node n (path-insensitive IN state + n's own assignments)."""
+        st = dict(self.flag_in.get(n.idx, {}))
+        fl = self._flag_locals(n.ctx.fn)
+        for s_ in n.stmts:
+            if s_["k"] == "assign" and not s_["place"]["p"] and s_["place"]["l"] in fl and (n.ctx.id, s_["place"]["l"]) in self.flag_keys:
+                st[(n.ctx.id, s_["place"]["l"])] = frozenset([s_["rv"]["op"]["val"]])
+        return st
+
+    def _step(self, n, st, exclude, avoid_labels):
+        """Successors of n under drop-flag state st: yields (succ, new_state)."""
+        fl = self._flag_locals(n.ctx.fn)
+        st2 = st
+        for s_ in n.stmts:
+            if s_["k"] == "assign" and not s_["place"]["p"] and s_["place"]["l"] in fl and (n.ctx.id, s_["place"]["l"]) in self.flag_keys:
+                if st2 is st:
+                    st2 = dict(st)
+                st2[(n.ctx.id, s_["place"]["l"])] = frozenset([s_["rv"]["op"]["val"]])
+        sw_key = None
+        if n.kind == "switch":
+            e = self.switch_expr(n)
+            if isinstance(e, tuple) and e and e[0] == "phi" and (e[1], e[2]) in self.flag_keys and (e[1], e[2]) in st2:
+                sw_key = (e[1], e[2])
+        for (s, lab) in n.succ:
+            l0 = lab[0] if isinstance(lab, tuple) else lab
+            if l0 in exclude or l0 in avoid_labels:
+                continue
+            if sw_key is not None and isinstance(lab, tuple):
+                vals = st2[sw_key]
+                keep = frozenset(v for v in vals if (v != 0 if lab[1] == "otherwise" else v == lab[1]))
+                if not keep:
+                    continue
+                st3 = dict(st2)
+                st3[sw_key] = keep
+                yield s, st3
+            else:
+                yield s, st2
+
+    def must_pass_flags(self, start_node, start_state, target_pred, exits, exclude=("ui",), avoid_labels=()):
+        """Like must_pass, but drop flags are tracked path-sensitively from start_state."""
+        exits_idx = {e.idx for e in exits}
+        seen = set()
+        dq = deque([(start_node, start_state)])
+        while dq:
+            n, st = dq.popleft()
+            key = (n.idx, frozenset(st.items()))
+            if key in seen:
+                continue
+            seen.add(key)
+            if target_pred(n):
+                continue
+            if n.idx in exits_idx:
+                return False, n
+            for s, st2 in self._step(n, st, exclude, avoid_labels):
+                dq.append((s, st2))
+        return True, None
+
+    def reachable_flags(self, start_node, start_state, exclude=("ui",), avoid_labels=()):
+        seen = set()
+        nodes = set()
+        dq = deque([(start_node, start_state)])
+        while dq:
+            n, st = dq.popleft()
+            key = (n.idx, frozenset(st.items()))
+            if key in seen:
+                continue
+            seen.add(key)
+            nodes.add(n.idx)
+            for s, st2 in self._step(n, st, exclude, avoid_labels):
+                dq.append((s, st2))
+        return nodes
 
     def must_pass(self, frm, target_pred, exits, exclude=("ui",), avoid_labels=()):
         """Every path from `frm` to any node in `exits` passes a node satisfying target_pred
